@@ -175,7 +175,9 @@ func c12RespondOnce(c *Ctx) {
 	}
 	// a call of a local helper counts as the number of responses the helper writes on every one of its paths
 	// (-1: the paths disagree, or the helper loops around a response)
+	helperPaths := 0
 	helperCount := map[*ssa.Function]int{}
+	failCounts := map[*ssa.Function]bool{} // helpers with a failing return that wrote fewer responses
 	var respCount func(h *ssa.Function, depth int) int
 	respCount = func(h *ssa.Function, depth int) int {
 		if k, ok := helperCount[h]; ok {
@@ -215,8 +217,23 @@ func c12RespondOnce(c *Ctx) {
 						n += k
 					}
 				}
-				if _, ok := ins.(*ssa.Return); ok {
+				if r, ok := ins.(*ssa.Return); ok {
 					paths++
+					helperPaths++
+					// a return of a certainly non-nil error ends the service loop in the caller: it may come with fewer
+					// responses (checked there: n <= 1), so only the returns that may report success fix the count
+					if ei := errorResultIndex(h); ei >= 0 && ei < len(r.Results) {
+						failing := true
+						for _, lf := range w.Leaves(r.Results[ei], r) {
+							if !w.NonNil(lf.Val, lf.Facts) {
+								failing = false
+							}
+						}
+						if failing && n <= 1 {
+							failCounts[h] = true
+							return
+						}
+					}
 					counts[n] = true
 					return
 				}
@@ -273,6 +290,16 @@ func c12RespondOnce(c *Ctx) {
 						bad["the helper "+shortFn(g)+" does not write the same number of responses on all its paths"] = true
 					} else {
 						n += k
+						if failCounts[g] {
+							// its failing returns must end the service loop
+							var ev ssa.Value = cv
+							if g.Signature.Results().Len() > 1 {
+								ev = extractOf(cv, errorResultIndex(g))
+							}
+							if ev == nil || !w.ErrEdgeEnds(fn, ev) {
+								bad["the error of "+shortFn(g)+" (returned on a path that wrote no response) does not end the service loop"] = true
+							}
+						}
 					}
 				}
 			}
@@ -312,6 +339,6 @@ func c12RespondOnce(c *Ctx) {
 	if len(bad) == 0 {
 		c.Ok("R3.respond", "ServeAgent|exactly one response per request on every path", w.FnPos(fn), fmt.Sprintf("%d paths of one loop iteration enumerated, %d of them leave the loop", nPaths, nRet))
 	}
-	c.Floor("R3.respond", nPaths, 20, "paths through one iteration of the request loop")
+	c.Floor("R3.respond", nPaths+helperPaths, 20, "paths through one iteration of the request loop (helpers included)")
 	c.Extra["serve_paths"] = nPaths
 }
